@@ -524,6 +524,77 @@ def clause_d(facts, rep):
     rep.require(n >= 1, 'C11.d: key comparison not found')
 
 
+def clause_shift(facts, rep, nss):
+    """Cached white-space bitmap: the mask  (1 << bit_pos) - 1  with bit_pos = pos - (block_end - W) needs
+    bit_pos <= W-1, i.e. pos < block_end, on every path (a shift by the full width is undefined and, on x86, leaves
+    the mask empty so the scanner jumps back to an earlier token).  Decided by dominance: the shift is dominated by an
+    edge of a comparison of the cursor with the block end that implies pos < block_end (evaluated on a grid), with no
+    write to either in between.  The lower bound bit_pos >= 0 is the documented monotone-cursor assumption."""
+    n = 0
+    for f in facts.functions:
+        if f.short not in ('skip_space', 'skip_space_safe') or not any(ns in f.qn for ns in nss):
+            continue
+        defs = {}
+        for bid, i, s_ in f.stmts():
+            st = strip(s_)
+            if st is not None and st.get('k') == 'decl':
+                for vd in st['vars']:
+                    if vd.get('init') is not None:
+                        defs[vd['id']] = vd['init']
+        for bid, i, s_, e in f.walk():
+            if e.get('k') != 'bin' or e['op'] != '<<' or cval(e['l']) != 1:
+                continue
+            b = strip(e['r'])
+            if b is None or b.get('k') != 'ref' or b.get('id') not in defs:
+                continue
+            d = strip(defs[b['id']])            # bit_pos = P - S
+            if d is None or d.get('k') != 'bin' or d['op'] != '-':
+                continue
+            P, S = strip(d['l']), strip(d['r'])
+            if P is None or S is None or P.get('k') != 'ref' or S.get('k') != 'ref' or S.get('id') not in defs:
+                continue
+            sd = strip(defs[S['id']])           # S = E - W
+            if sd is None or sd.get('k') != 'bin' or sd['op'] != '-' or cval(sd['r']) is None:
+                continue
+            E = strip(sd['l'])
+            W = cval(sd['r'])
+            if E is None or E.get('k') != 'ref':
+                continue
+            pid, eid = P['id'], E['id']
+            rep.fn(f)
+
+            def gen_edge(bb, cond, sense):
+                c = strip_expect(cond)
+                if c is None:
+                    return []
+                ids = set(y.get('id') for y in walk(c) if y.get('k') == 'ref' and y.get('dk') in ('local', 'param'))
+                if ids != {pid, eid}:
+                    return []
+                from ..narrowing import _eval as ev1
+                try:
+                    sat = [(p_, e_) for p_ in range(0, 140, 1) for e_ in (0, 64, 65, 100, 128, 139) if bool(ev1(c, {pid: p_, eid: e_})) == sense]
+                except KeyError:
+                    return []
+                return ['inblock'] if sat and all(p_ < e_ for p_, e_ in sat) else []
+
+            def kill_stmt(st):
+                for y in walk(st):
+                    if y.get('k') == 'bin' and y['op'] in ('=', '+=', '-=') and strip(y['l']) is not None and strip(y['l']).get('id') in (pid, eid):
+                        return ['inblock']
+                    if y.get('k') == 'un' and y['op'] in ('++', '--') and strip(y['e']) is not None and strip(y['e']).get('id') in (pid, eid):
+                        return ['inblock']
+                return []
+            M = Must(f, gen_edge=gen_edge, kill_stmt=kill_stmt)
+            st = M.at(bid, i)
+            if st is None:
+                continue
+            n += 1
+            rep.check('inblock' in st and W == 64, 'E3.shift-range', f.qn, show(e), locline(e['loc']),
+                      'the shift amount %s = %s - (%s - %d) must be <= %d: the cursor has to be strictly below the cached block end on every path to the mask' % (
+                          b.get('name'), P.get('name'), E.get('name'), W, W - 1), facts.config)
+    rep.require(n >= 2, 'C11: cached-bitmap mask shifts found: %d' % n)
+
+
 def run(rep, tier):
     configs = [('K1', ('::avx2::',)), ('K3', ('::sse::',))] if tier == 'quick' else [('K1', ('::avx2::',)), ('K3', ('::sse::',)), ('K4', ('::avx2::', '::sse::'))]
     for cfg, ns in configs:
@@ -539,6 +610,7 @@ def run(rep, tier):
         # the mask-width contract the zone analysis relies on is checked, not only trusted (shared with C15)
         from . import c15
         c15.clause_f(facts, rep)
+        clause_shift(facts, rep, ns)
     rep.min_instances('E3.read', 25)
     rep.trust('clang 14 front end', 'vector load widths (sv/primitives.py)', 'TrailingZeroes(m) in [0, bits(m)-1] for m != 0; to_bitmask() of an N-lane vector < 2^N',
               'libc memcpy/memcmp read exactly the stated range', 'a SkipScanner object is used with a single buffer (rule E7.fresh-parser of C02)')
